@@ -223,26 +223,37 @@ splitext_root = z3.Function("os_path_splitext_root", S, S)
 splitext_ext = z3.Function("os_path_splitext_ext", S, S)
 
 
+def _pstr(ex, v):
+    """a path argument: Optional values are unwrapped (None -> TypeError, as os.path does)"""
+    if is_sym(v) and v.ty.kind == "opt":
+        if ex.branch(v.ty.is_none(v.t), "path-none"):
+            ex.raise_(TypeError, "expected str, bytes or os.PathLike object, not NoneType", tag="path-none")
+        return v.ty.val(v.t)
+    if v is None:
+        ex.raise_(TypeError, "expected str, bytes or os.PathLike object, not NoneType", tag="path-none")
+    return term(v, STR)
+
+
 def _join_model(f):
     def m(ex, args, kwargs):
         if len(args) != 2:
             raise Unsupported("path join with other than two parts")
         ex.assumptions_used.add("T-PATH: os.path / fs.path join, split, normpath, splitext as uninterpreted functions")
-        return SV(f(term(args[0], STR), term(args[1], STR)), STR)
+        return SV(f(_pstr(ex, args[0]), _pstr(ex, args[1])), STR)
     return m
 
 
 def _norm_model(f):
     def m(ex, args, kwargs):
         ex.assumptions_used.add("T-PATH: os.path / fs.path join, split, normpath, splitext as uninterpreted functions")
-        return SV(f(term(args[0], STR)), STR)
+        return SV(f(_pstr(ex, args[0])), STR)
     return m
 
 
 def _split_model(h, t):
     def m(ex, args, kwargs):
         ex.assumptions_used.add("T-PATH: os.path / fs.path join, split, normpath, splitext as uninterpreted functions")
-        p = term(args[0], STR)
+        p = _pstr(ex, args[0])
         return (SV(h(p), STR), SV(t(p), STR))
     return m
 
